@@ -797,12 +797,22 @@ def output_pushes(F, rep, lf):
             continue
         n_out += 1
         hb = F.bodies[key[0]]
-        for i, t in hb.calls():
-            m = parse_callee(t["callee"])[2]
-            if m in REMOVING and "Vec" in t["callee"] and t["args"]:
-                r = root_of_operand(hb, t["args"][0])
-                if r and r[0] == key[1]:
-                    thinned.append((hb, t, m))
+        holders = [(hb, key[1])]
+        if key[1] is not None and 1 <= key[1] <= hb.argc:
+            # the lines are pushed through a `&mut Vec<String>` parameter of a helper (`txn.write_dsl(&mut output_lines)`): the
+            # vector is the caller's
+            for it in rg.items:
+                if it["term"]["callee"] == hb.id and len(it["term"]["args"]) >= key[1]:
+                    r0 = root_of_operand(it["body"], it["term"]["args"][key[1] - 1])
+                    if r0:
+                        holders.append((it["body"], r0[0]))
+        for xb, root in holders:
+            for i, t in xb.calls():
+                m = parse_callee(t["callee"])[2]
+                if m in REMOVING and "Vec" in t["callee"] and t["args"]:
+                    r = root_of_operand(xb, t["args"][0])
+                    if r and r[0] == root:
+                        thinned.append((xb, t, m))
     for hb, t, m in thinned:
         rep.ob("R2", f"{hb.short}:output-lines:{m}", False,
                f"the vector of output lines is thinned by `{m}` after the rows were converted: rows are dropped (or merged) without a warning or a count",
@@ -1026,6 +1036,23 @@ def run(ctx, rep):
     output_pushes(F, rep, lf)
     taint(F, rep, lf)
     sort_rule(F, rep)
+    # "the output is valid DSL" at the command line too: what the convert command prints to standard output is the converter's
+    # text and nothing else — warnings belong to standard error (seeded change C18-s6 printed them in front of the DSL)
+    n_print = 0
+    for b in F.bodies.values():
+        if b.crate != "cgt_tool" or not P.user_written(F, b):
+            continue
+        tb0 = None
+        for i, t in b.calls():
+            if t["callee"] != "std::io::stdio::_print":
+                continue
+            tb0 = tb0 or Terms(F, b, inline_depth=0)
+            args_term = tb0.operand(t["args"][0]) if t["args"] else None
+            fields = {x[2] for x in subterms(args_term) if isinstance(x, tuple) and len(x) == 3 and x[0] == "field" and isinstance(x[2], str)} if args_term else set()
+            if "warnings" in fields:
+                n_print += 1
+                rep.ob("R3", f"{b.short}:warnings-on-stdout", False, "a converter warning is printed to standard output: the DSL written there no longer parses",
+                       b.loc(t["sp"]), key=f"R3:{b.short}:warnings-on-stdout")
     # "RSUs dated at the vest date and priced at the vest-date market value": the awards table prefers the vest pair over the
     # deposit-day price and is queried with the row's own date and symbol (shared with C19-R1/R2/R3; seeded change C18-s5)
     import rules.c19 as c19
